@@ -913,7 +913,8 @@ impl Check for C01 {
         // ONE deserializer / stream polled again and again after errors (a skip-the-bad-record
         // loop): state that leaks per error (depth budgets, marks, scratch) shows only there
         for kind in 0..8i64 {
-            if g.mine(5000 + kind as u64) {
+            // (the deeply nested records are left out of the unoptimised build: finding F30)
+            if g.mine(5000 + kind as u64) && !(g.build == "native-dbg0" && kind % 4 < 2) {
                 emit(Case::with("reuse", vec![], &[kind, 300 + 40 * kind]));
             }
         }
@@ -990,8 +991,9 @@ impl Check for C01 {
                 // the input: records that fail in different ways, the deserializer is asked for
                 // the next record `calls` times whatever happened
                 let bad: String = match kind % 4 {
-                    0 => "[".repeat(600),
-                    1 => "{\"a\":".repeat(400),
+                    // enough nesting for every call to run into the limit again
+                    0 => "[".repeat(256 * (calls + 20)),
+                    1 => "{\"a\":".repeat(256 * (calls + 20)),
                     2 => "\"\\q\" \"\\ud800 \" [\"x\\u12\"] ".repeat(120),
                     _ => "[1,] {\"a\" 1} tru 01 \"\u{1}\" ".repeat(100),
                 };
